@@ -194,9 +194,11 @@ extern "C" void h_entry()
             {
                 case 0:
                 {
+                    const u64 ga = gen_sum(Ref(a), SEQ);
                     Elem b(a);
                     check_el(b, m.e[i], 300);
                     check_el(a, m.e[i], 400);
+                    verif_assert(gen_sum(Ref(a), SEQ) == ga, 262);  // a copy does not move from its source
                     verif_assert(verif_live_blocks() == blocks0 + 1, 901);
                     verif_assert(verif_live_objs() == vec_objs + 2 * trs(m.e[i]), 297);
                     ME mb = m.e[i];
@@ -216,9 +218,11 @@ extern "C" void h_entry()
                 }
                 case 2:
                 {
+                    const u64 ga = gen_sum(Ref(a), SEQ);
                     Elem b(a, EAlloc(other_id));
                     check_el(b, m.e[i], 300);
                     check_el(a, m.e[i], 400);
+                    verif_assert(gen_sum(Ref(a), SEQ) == ga, 262);  // neither does the allocator-extended copy
                     verif_assert(b.get_allocator().id == other_id, 801);
                     ME mb = m.e[i];
                     scribble(Ref(a), m.e[i], SEQ);
